@@ -48,9 +48,17 @@ def ws_runs(t):
 def classify(bad, texts, wd):
     """bad: list of (index, verdict). Returns {index: finding id} for mismatches explained by a listed leniency class."""
     known = {}
+    for i, v in bad:
+        if i not in known and v == "bad:accepted-not-derivable":
+            import re
+            # a horizontal tab inside a comment: PCHAR excludes %x09, the parser takes any character up to the line end
+            if re.search(r";[^\n]*\t", texts[i]):
+                known[i] = "C03-tab-in-comment"
     # K1: accepted although not derivable, but a derivable text with the same AST differs only by whitespace runs (pest implicit whitespace)
     cand, owner = [], []
     for i, v in bad:
+        if i in known:
+            continue
         t = texts[i]
         if v == "bad:accepted-not-derivable":
             runs = ws_runs(t)
@@ -120,6 +128,10 @@ def classify(bad, texts, wd):
     for i, v in bad:
         if i not in known and v == "bad:rejected-derivable":
             import re
+            # a name with a single '$' prefix extended with '//=': an id per the ABNF, but the PEG reserves '$$' for group sockets
+            if re.search(r"(?m)^\s*\$(?!\$)[\w.@-]*\s*(<[^>\n]*>)?\s*//=", texts[i]):
+                known[i] = "C03-single-dollar-groupname"
+                continue
             # '&' applied to a name with a single '$' prefix: an id per the ABNF, but the PEG wants a group name ('$$' socket or plain)
             if re.search(r"&\s*\$(?!\$)", texts[i]):
                 known[i] = "C03-single-dollar-groupname"
